@@ -86,10 +86,12 @@ Offenders(c, S0) ==
    <<"addbasis_keeps_group_order", {p \in RA(c) : c.real[p[1]].addb[p[2]].order # Len(c.real[p[1]].G)}>>,
    <<"addbasis_keeps_rotations",
      {p \in RA(c) : AsSet(c.real[p[1]].addb[p[2]].rots) # {c.real[p[1]].G[n].rot : n \in DOMAIN c.real[p[1]].G}}>>,
-   \* sweep worlds: the origin (species 1, atom 1) was constructed to have site symmetry exactly H
+   \* sweep worlds: the origin (species 1, atom 1) was constructed to have site symmetry exactly H; the constructor
+   \* may have relabelled the lattice vectors, so H is compared up to that choice (order and trace/det class counts)
    <<"sweep_site_symmetry_is_H",
      IF ~ c.sweep THEN {}
-     ELSE {p \in RS(c) : Site(c, p).a = <<1, 1>> /\ {Site(c, p).pg[n].rot : n \in DOMAIN Site(c, p).pg} # AsSet(c.H)}>>
+     ELSE {p \in RS(c) : Site(c, p).a = <<1, 1>> /\
+              ClassSigOf({Site(c, p).pg[n].rot : n \in DOMAIN Site(c, p).pg}) # ClassSigOf(AsSet(c.H))}>>
   >>
 
 \* measured facts
@@ -101,17 +103,32 @@ ModelSane(c, S) ==     \* model-level lemmas the verdict relies on: the referenc
   /\ UNION Orbits(c.w, S) = AtomSet(c.w)
   /\ \A o1 \in Orbits(c.w, S), o2 \in Orbits(c.w, S) : o1 = o2 \/ o1 \cap o2 = {}
   /\ \A a \in AtomSet(c.w) : Cardinality(Stab(c.w, S, a)) * Cardinality(OrbitOf(c.w, S, a)) = Cardinality(S)
-  /\ (c.sweep => RotsOf(Stab(c.w, S, <<1, 1>>)) = AsSet(c.H))
+  /\ (c.sweep => ClassSigOf(RotsOf(Stab(c.w, S, <<1, 1>>))) = ClassSigOf(AsSet(c.H)))
 
-Init == k = 0
-Next == /\ k < Len(Cases)
-        /\ k' = k + 1
-        /\ LET c == Cases[k'] S0 == OpsRT(c.w, 2) cl == Offenders(c, S0) IN
+\* signature of a point group that does not depend on the choice of lattice vectors: {<<trace, det, count>>}
+ClassSig(P) == ClassSigOf(P)
+SiteClauses == {"pointG_fixes_site", "pointG_is_stabiliser", "pointG_ops_distinct", "vector_basis_dimension",
+                "vector_basis_invariant", "vector_basis_orthonormal", "tensor_basis_dimension", "tensor_basis_symmetric",
+                "tensor_basis_invariant", "tensor_basis_orthonormal", "sweep_site_symmetry_is_H"}
+SigAt(c, S0, p) == IF p[2] \in DOMAIN c.real[p[1]].sites THEN ClassSig(StabRots(c, S0, p)) ELSE {}
+
+\* the definitional group of the current case is computed ONCE, in its own step, and held in a variable
+VARIABLES phase, grp
+Init == k = 0 /\ phase = "load" /\ grp = {}
+Load == /\ phase = "load" /\ k < Len(Cases)
+        /\ k' = k + 1 /\ grp' = OpsRT(Cases[k'].w, 2) /\ phase' = "check"
+Check == /\ phase = "check"
+         /\ LET c == Cases[k] S0 == grp cl == Offenders(c, S0) IN
              /\ \A j \in DOMAIN cl : cl[j][2] = {} \/
-                   (PrintT(<<"FAIL", k', cl[j][1]>>) /\ PrintT(<<"INFO", k', "where_" \o cl[j][1], CHOOSE p \in cl[j][2] : TRUE>>))
-             /\ PrintT(<<"INFO", k', "order", Cardinality(S0)>>)
-             /\ PrintT(<<"INFO", k', "maxstab", MaxStab(c, S0)>>)
-             /\ PrintT(<<"INFO", k', "gap", Gap(c, S0)>>)
-             /\ PrintT(<<"INFO", k', "model_sane", ModelSane(c, S0)>>)
-        /\ (k' = Len(Cases) => PrintT(<<"DONE", k'>>))
+                   LET p == CHOOSE p \in cl[j][2] : TRUE IN
+                   /\ PrintT(<<"FAIL", k, cl[j][1]>>)
+                   /\ PrintT(<<"INFO", k, "where_" \o cl[j][1], p>>)
+                   /\ PrintT(<<"INFO", k, "sig_" \o cl[j][1], IF cl[j][1] \in SiteClauses THEN SigAt(c, S0, p) ELSE {}>>)
+             /\ PrintT(<<"INFO", k, "order", Cardinality(S0)>>)
+             /\ PrintT(<<"INFO", k, "maxstab", MaxStab(c, S0)>>)
+             /\ PrintT(<<"INFO", k, "gap", Gap(c, S0)>>)
+             /\ PrintT(<<"INFO", k, "model_sane", ModelSane(c, S0)>>)
+         /\ (k = Len(Cases) => PrintT(<<"DONE", k>>))
+         /\ phase' = "load" /\ grp' = {} /\ UNCHANGED k
+Next == Load \/ Check
 =============================================================================
